@@ -394,7 +394,7 @@ func TestMC_C05(t *testing.T) {
 			}
 			return
 		}
-		vk := txgPanicKey(res.Site)
+		vk := txgPanicKey(res.Site, res.Tx.TransactionType())
 		c.Outcome(vk)
 		raw, ts := res.Raw, e.Times[ti]
 		desc := fmt.Sprintf("Validate panicked (%v) at %s; family %s ledger %s time %s shape %s", res.Panic, res.Site, fam, e.Name, e.TimeNames[ti], shape.Key())
@@ -408,7 +408,7 @@ func TestMC_C05(t *testing.T) {
 			c.Sample(map[string]any{"family": fam, "ledger": e.Name, "time": e.TimeNames[ti], "shape": shape.Key(), "result": vk, "tx": verifmc.Hex(raw)})
 			c.ViolationChecked(vk, desc, replay, func() bool {
 				_, p, site := txgReplayRaw(e, raw, ts)
-				return p != nil && txgPanicKey(site) == vk
+				return p != nil && txgPanicKey(site, res.Tx.TransactionType()) == vk
 			})
 			return
 		}
